@@ -51,14 +51,14 @@ impl Scenario for Mixed {
         }
     }
     fn replay(&self, doc: &Value) -> CaseRecord {
-        if doc.get("kind").and_then(|k| k.as_str()) == Some(self.minor_kind) {
+        if doc.get("kind").and_then(|k| k.as_str()).is_some_and(|k| self.minor_kind.split('|').any(|m| m == k)) {
             self.minor.replay(doc)
         } else {
             self.major.replay(doc)
         }
     }
     fn minimise(&self, doc: Value, rule: &str) -> Value {
-        if doc.get("kind").and_then(|k| k.as_str()) == Some(self.minor_kind) {
+        if doc.get("kind").and_then(|k| k.as_str()).is_some_and(|k| self.minor_kind.split('|').any(|m| m == k)) {
             self.minor.minimise(doc, rule)
         } else {
             self.major.minimise(doc, rule)
